@@ -709,7 +709,7 @@ def judge(env, cid, src, rec, mrec, wf, out, release=False):       # noqa: F811
     if not d or "badast" in d:
         return
     acc = bool(rec.get("accepted"))
-    k = "accepted=%d rules=%s ids=%s idxt=%s wf=%s" % (acc, d["rules"], d["ids"], d["idxt"], d["wf"])
+    k = "accepted=%d rules=%s ids=%s idxt=%s lexical=%s wf=%s" % (acc, d["rules"], d["ids"], d["idxt"], d.get("lexical"), d["wf"])
     _RULES_TIE["hist"][k] = _RULES_TIE["hist"].get(k, 0) + 1
     _RULES_TIE["theorem_instances"] += 1
     if acc and d["rules"] != "1":
@@ -717,6 +717,15 @@ def judge(env, cid, src, rec, mrec, wf, out, release=False):       # noqa: F811
     if acc and (d["ids"] != "1" or d["idxt"] != "1"):
         out["disagreements"].append({"stream": "ids-inconsistent-on-accepted", "id": cid, "case": src, "tie": d,
                                      "which": [x for x in ("calls", "fids", "prange", "idxt") if d.get(x) != "1"]})
+    if acc and d.get("lexical") != "1":
+        # hypothesis of C06_function_free_accepted_never_panics / C06_accepted_by_rules_lexical_... (C04's relation)
+        out["disagreements"].append({"stream": "lexical-false-on-accepted", "id": cid, "case": src, "tie": d})
+    if d.get("lexical") == "1" and d.get("nofn") == "1":
+        # theorem instance C06_lexical_function_free_implies_wf_scoped (no plan)
+        _RULES_TIE["function_free"] = _RULES_TIE.get("function_free", 0) + 1
+        if (wf.get(cid) or {}).get("scoped_n") == "0":
+            out["disagreements"].append({"stream": "theorem-instance-violated:lexical-function-free-implies-wf_scoped",
+                                         "id": cid, "case": src, "tie": d})
     if d["rules"] == "1" and d["ids"] == "1" and d["idxt"] == "1":
         _RULES_TIE["premise_true"] += 1
         if d["wf"] != "1":
@@ -731,12 +740,14 @@ def correspond(env, searching=False, model=True):       # noqa: F811
     _RULES_TIE["hist"] = {}
     _RULES_TIE["theorem_instances"] = 0
     _RULES_TIE["premise_true"] = 0
+    _RULES_TIE["function_free"] = 0
     res = _correspond_round1(env, searching=searching, model=model)
     res["extra"]["rules_tie"] = {
         "what": "per program with an AST: resolver verdict x StaticRules.check=[] x ids_consistent x idx_targets x wf_static "
                 "(extracted, on the resolver's own ids); theorem: rules & ids & idxt => wf",
         "histogram": dict(_RULES_TIE["hist"]),
         "programs": _RULES_TIE["theorem_instances"],
-        "premise_true": _RULES_TIE["premise_true"]}
+        "premise_true": _RULES_TIE["premise_true"],
+        "lexical_function_free_programs": _RULES_TIE.get("function_free", 0)}
     res["rule"] += "; each program's dumped AST is also run through the extracted StaticRules.check / ids_consistent / idx_targets (theorem premise) "
     return res
